@@ -31,7 +31,7 @@ Proof.
 Qed.
 
 Lemma acc_comm_sound : forall c, acc_comm_b c = true -> fold_comm (acc_interp c).
-Proof. intros [| |f] H; simpl in *; [exact c_plus_comm | exact c_count_comm | discriminate]. Qed.
+Proof. intros [| | |f] H; simpl in *; [exact c_plus_comm | exact c_plus_comm | exact c_count_comm | discriminate]. Qed.
 
 Lemma wf_rab_sound : forall r, wf_rab r = true -> wf_a (interp_a r).
 Proof.
